@@ -688,6 +688,32 @@ func boundary() []cCase {
 	cs = append(cs, cCase{Family: "event-polled-while-expired-then-reaccept", WindowMs: 3000, MinConf: 1, Ws: condLog, Ops: cat([]cOp{
 		acc(0, 10), acc(1, 10), sl(3500 * ms), evs(8, ev(0, 1, 1, 10, 12, 1), ev(1, 2, 2, 10, 12, 1)), sl(1200 * ms), acc(0, 10), acc(1, 10), tr(0, 10), sl(2200 * ms),
 		tr(0, 10), tr(1, 10)}, allFilters(cItem{0, 11}, cItem{0, 12}, cItem{1, 12}))})
+	// shallow re-org: the same transaction is mined in block 105 and then again in block 108 -- a
+	// different event (visitedID includes the transmit block); the record must follow it
+	for _, typ := range []int{1, 2} {
+		for _, mc := range []int{0, 3} {
+			var its []cItem
+			for b := uint64(104); b <= 109; b++ {
+				its = append(its, cItem{0, b}, cItem{1, b})
+			}
+			cs = append(cs, cCase{Family: fmt.Sprintf("reorg-same-tx-moved-transmit-block-type-%d-minconf-%d", typ, mc), WindowMs: 20000, MinConf: mc, Ws: condLog, Ops: cat([]cOp{
+				acc(0, 100), acc(1, 100), evs(2, ev(0, 7, typ, 100, 105, int64(mc)), ev(1, 8, typ, 100, 105, int64(mc))), sl(2200 * ms)},
+				allFilters(its...),
+				[]cOp{evs(3, ev(0, 7, typ, 100, 108, int64(mc)), ev(1, 8, typ, 100, 108, int64(mc)+1)), sl(1200 * ms)},
+				allFilters(its...), []cOp{tr(0, 100), acc(0, 100), sl(2200 * ms)}, allFilters(its...),
+				// and back to an earlier block, then the first event once more (a re-delivery of a visited event)
+				[]cOp{evs(2, ev(0, 7, typ, 100, 103, int64(mc)), ev(0, 7, typ, 100, 105, int64(mc))), sl(2200 * ms)}, allFilters(its...))})
+		}
+	}
+	for _, up := range []bool{true, false} {
+		tb1, tb2 := uint64(105), uint64(108)
+		if !up {
+			tb1, tb2 = 108, 105
+		}
+		cs = append(cs, cCase{Family: fmt.Sprintf("reorg-compact-%d-then-%d", tb1, tb2), WindowMs: 20000, MinConf: 1, Ws: one, Ops: []cOp{
+			acc(0, 100), evs(1, ev(0, 7, 1, 100, tb1, 1)), sl(1200 * ms), evs(1, ev(0, 7, 1, 100, tb2, 1)), sl(1200 * ms),
+			flt("pre", cItem{0, 104}, cItem{0, 105}, cItem{0, 106}, cItem{0, 107}, cItem{0, 108}, cItem{0, 109})}})
+	}
 	// report level through a plug-in instance (any-of)
 	cs = append(cs, cCase{Family: "plugin-anyof", WindowMs: 4000, MinConf: 0, Plugin: true, Ws: three, Ops: []cOp{
 		acc(0, 10), flt("acceptrep", cItem{0, 10}, cItem{1, 7}), flt("acceptrep", cItem{0, 10}, cItem{1, 7}), flt("acceptrep", cItem{0, 9}, cItem{1, 7}, cItem{2, 3}),
@@ -748,6 +774,21 @@ func randomCase(r *Rng, emphasizeFilters bool) cCase {
 		w := r.Intn(nw)
 		k := r.Intn(100)
 		if !c.Plugin && r.Chance(1, 14) {
+			// accepted, performed, then the same transaction is mined again in another block (re-org)
+			tx++
+			cur[w] += uint64(1 + r.Intn(3))
+			typ := []int{1, 1, 1, 2, 3}[r.Intn(5)]
+			e1 := ev(w, tx, typ, cur[w], cur[w]+uint64(2+r.Intn(3)), int64(c.MinConf)+int64(r.Intn(2)))
+			e2 := e1
+			e2.TB = uint64(int64(e1.TB) + int64([]int{1, 2, 3, -1}[r.Intn(4)]))
+			lastTB[w] = e2.TB
+			pastEv = append(pastEv, e1, e2)
+			c.Ops = append(c.Ops, acc(w, cur[w]), evs(1+r.Intn(2), e1), sl(int64(1+r.Intn(2))*sec+int64(100+r.Intn(800))*ms),
+				evs(1+r.Intn(3), e2), sl(int64(1+r.Intn(2))*sec+int64(100+r.Intn(800))*ms),
+				flt([]string{"pre", "fres"}[r.Intn(2)], cItem{W: w, Blk: e1.TB - 1}, cItem{W: w, Blk: e1.TB}, cItem{W: w, Blk: e2.TB - 1}, cItem{W: w, Blk: e2.TB}, cItem{W: w, Blk: e2.TB + 1}))
+			continue
+		}
+		if !c.Plugin && r.Chance(1, 14) {
 			// an event that is on chain before this node accepts the report and stays in the provider's list
 			tx++
 			cur[w] += uint64(1 + r.Intn(3))
@@ -789,6 +830,12 @@ func randomCase(r *Rng, emphasizeFilters bool) cCase {
 					e := pastEv[r.Intn(len(pastEv))]
 					if r.Chance(1, 3) {
 						e.Conf = int64(c.MinConf) + int64(r.Intn(3))
+					}
+					if r.Chance(1, 2) {
+						// the transaction was mined again in another block (re-org)
+						e.TB = uint64(int64(e.TB) + int64([]int{1, 2, 3, -1}[r.Intn(4)]))
+						lastTB[e.W] = e.TB
+						pastEv = append(pastEv, e)
 					}
 					batch = append(batch, e)
 					continue
@@ -952,17 +999,117 @@ func TestC06(t *testing.T) {
 	if ReplayFile() != "" {
 		return
 	}
-	// two-phase garbage collection racing a Set (second finding): a fresh item must survive ClearExpired
-	n := EnvInt("VERIF_GC_RACES", 25000)
-	lost := gcRaces(n)
+	writeDirect(t, "C06", true)
+}
+
+// getRaces: an expired record is read by a filter (cache.Get without the coordinator's mutex) while
+// Accept stores a fresh record for the same work id; afterwards the fresh record must still be there
+// (ShouldTransmit true, ShouldProcess false).  The real coordinator runs in a synctest bubble: the two
+// calls race in real parallelism, but the clock is virtual, so the verdict involves no timing assumption.
+func getRaces(t *testing.T, n int) (lostTransmit, lostPending int) {
+	c := &cCase{WindowMs: 1000, Ws: []cWid{{Type: 0, N: 1}, {Type: 1, N: 2}}}
+	synctest.Test(t, func(t *testing.T) {
+		co := coordinator.NewCoordinator(&scriptedEvents{}, simutil.GetUpkeepType,
+			config.OffchainConfig{PerformLockoutWindow: c.WindowMs, MinConfirmations: 0}, log.New(io.Discard, "", 0))
+		for i := 0; i < n; i++ {
+			w := i % 2
+			blk := uint64(10 + i%7)
+			co.Accept(c.reported(w, 50))
+			time.Sleep(1500 * time.Millisecond) // virtual: the record is now expired, not collected
+			const readers = 3
+			var wg sync.WaitGroup
+			var ready atomic.Int32
+			barrier := func() {
+				ready.Add(1)
+				for ready.Load() < readers+1 {
+				}
+			}
+			wg.Add(readers + 1)
+			for g := 0; g < readers; g++ {
+				go func() {
+					defer wg.Done()
+					barrier()
+					switch (i + g) % 3 {
+					case 0:
+						co.ShouldProcess(c.workID(w), c.upkeepID(w), c.trigger(w, blk))
+					case 1:
+						_, _ = co.FilterResults([]common.CheckResult{{UpkeepID: c.upkeepID(w), Trigger: c.trigger(w, blk), WorkID: c.workID(w)}})
+					default:
+						_, _ = co.FilterProposals([]common.CoordinatedBlockProposal{{UpkeepID: c.upkeepID(w), Trigger: c.trigger(w, blk), WorkID: c.workID(w)}})
+					}
+				}()
+			}
+			go func() { defer wg.Done(); barrier(); co.Accept(c.reported(w, blk)) }()
+			wg.Wait()
+			if !co.ShouldTransmit(c.reported(w, blk)) {
+				lostTransmit++
+			}
+			if co.ShouldProcess(c.workID(w), c.upkeepID(w), c.trigger(w, blk)) {
+				lostPending++
+			}
+			time.Sleep(1500 * time.Millisecond)
+		}
+	})
+	return
+}
+
+// cacheGetRaces: the same on util.Cache with the real clock: Get of an expired item racing a Set of a
+// fresh one (1 h expiry, so the verdict does not depend on timing).
+func cacheGetRaces(n int) int {
+	lost := 0
+	for i := 0; i < n; i++ {
+		c := util.NewCache[int](time.Hour)
+		c.Set("k", 1, time.Nanosecond)
+		time.Sleep(time.Microsecond)
+		const readers = 3
+		var wg sync.WaitGroup
+		var ready atomic.Int32
+		barrier := func() {
+			ready.Add(1)
+			for ready.Load() < readers+1 {
+			}
+		}
+		wg.Add(readers + 1)
+		for g := 0; g < readers; g++ {
+			go func() { defer wg.Done(); barrier(); c.Get("k") }()
+		}
+		go func() { defer wg.Done(); barrier(); c.Set("k", 2, time.Hour) }()
+		wg.Wait()
+		if v, ok := c.Get("k"); !ok || v != 2 {
+			lost++
+		}
+	}
+	return lost
+}
+
+func writeDirect(t *testing.T, prop string, withGC bool) {
+	dir := OutDir(t, prop)
+	n := EnvInt("VERIF_GET_RACES", 20000)
+	lostT, lostP := getRaces(t, n)
+	lostC := cacheGetRaces(n)
 	var viol []map[string]any
-	if lost > 0 {
-		viol = append(viol, map[string]any{"what": "util.Cache.ClearExpired deleted an item that was Set after it had collected the expired keys",
-			"lost": lost, "races": n, "theorem": "C06_gc_recheck_invisible"})
+	if lostT > 0 || lostP > 0 || lostC > 0 {
+		viol = append(viol, map[string]any{"what": "a record stored by Accept/Set while a concurrent cache.Get was reading the expired predecessor was lost " +
+			"(accepted, unconfirmed work: ShouldTransmit false / ShouldProcess true)",
+			"should_transmit_false": lostT, "should_process_true": lostP, "cache_item_lost": lostC, "races": n})
+	}
+	evals, dist := 2*n, map[string]int{"get_vs_accept_races": n, "cache_get_vs_set_races": n}
+	sample := map[string]any{"get_races": n, "should_transmit_false": lostT, "should_process_true": lostP, "cache_item_lost": lostC}
+	if withGC {
+		// two-phase garbage collection racing a Set: a fresh item must survive ClearExpired
+		g := EnvInt("VERIF_GC_RACES", 25000)
+		lost := gcRaces(g)
+		if lost > 0 {
+			viol = append(viol, map[string]any{"what": "util.Cache.ClearExpired deleted an item that was Set after it had collected the expired keys",
+				"lost": lost, "races": g, "theorem": "C06_gc_recheck_invisible"})
+		}
+		evals += g
+		dist["gc_races"] = g
+		sample["gc_races"], sample["fresh_items_lost_to_gc"] = g, lost
 	}
 	WriteJSON(t, filepath.Join(dir, "direct.json"), map[string]any{
-		"evaluations": n, "nontrivial_keys": []string{"gc-race"}, "violations": viol, "known": map[string]any{},
-		"samples": []any{map[string]any{"gc_races": n, "fresh_items_lost": lost}}, "distribution": map[string]int{"gc_races": n},
+		"evaluations": evals, "nontrivial_keys": []string{"get-race", "gc-race"}, "violations": viol, "known": map[string]any{},
+		"samples": []any{sample}, "distribution": dist,
 	})
 }
 
@@ -992,4 +1139,7 @@ func gcRaces(n int) int {
 func TestC07(t *testing.T) {
 	cases := genCases(t, "C07", true)
 	writeHistories(t, "C07", cases, "cc_bad07", "cc_nontriv07")
+	if ReplayFile() == "" {
+		writeDirect(t, "C07", false)
+	}
 }
